@@ -28,7 +28,7 @@ PROBE_FLOORS = ["clean_trailing_path", "ensure_lru_stems"]
 def universe():
     out = []
     for s, port, host, path, q, f in itertools.product(("http", "https"), ("", ":8080"), ("lemonde.fr", "www.lemonde.fr", "blog.www.lemonde.fr", "bbc.co.uk", "news.bbc.co.uk", "co.uk"),
-                                                      ("", "/", "/x", "/x/", "/x/y"), ("", "?a=1"), ("", "#f")):
+                                                      ("", "/", "/x", "/x/", "/x/y", "//x//", "/1|2:3"), ("", "?a=1"), ("", "#f")):
         out.append("%s://%s%s%s%s%s" % (s, host, port, path, q, f))
     return out
 
@@ -234,6 +234,10 @@ def run(ctx):
                     if fn is not None:
                         variant_law(ctx, cls, fn, sa, kw)
                         negative_variant_law(ctx, cls, fn, sa, kw)
+                    # several empty path stems in one URL; a '|' inside a value (the serialized form only splits before a stem tag)
+                    run_history(ctx, cls, sa, kw, [("set_lru_ser", "http://lemonde.fr//x//"), ("set", "http://lemonde.fr/x"), ("set_lru_stems", "http://lemonde.fr/x//y/"), ("set_lru_ser", "http://lemonde.fr/1|2:3"),
+                                                   ("set", "http://lemonde.fr/1|2:3?t=0|1:30#x|9:z")],
+                                ["http://lemonde.fr//x//", "http://lemonde.fr/x", "http://lemonde.fr/x/y", "http://lemonde.fr//x/y//z", "http://lemonde.fr/1|2:3", "http://lemonde.fr/1|2:3?t=0|1:30", "http://lemonde.fr/1"], "directed")
                     run_history(ctx, cls, sa, kw, [("set", "http://lemonde.fr/"), ("set_lru_ser", "http://lemonde.fr/x/"), ("setitem", "http://lemonde.fr/x/y?a=1")],
                                 ["http://lemonde.fr", "http://lemonde.fr/x", "http://lemonde.fr/x/y", "http://lemonde.fr/x/y?a=1#f", "http://lemonde.fr/z", "https://lemonde.fr/"], "directed")
             ctx.sample("directed", {"class": "NormalizedLRUTrie", "ops": [["set", "http://lemonde.fr/"], ["set_lru_ser", "http://lemonde.fr/x/"]]})
